@@ -591,7 +591,6 @@ func (p *Func) inlineClosureEnd(cb *CodeBuilder) {
 	sig := p.Type().(*types.Signature)
 	fnBody, _ := cb.endFuncBody(p.old)
 	cb.emitStmt(&target.BlockStmt{List: fnBody})
-	cb.stk.PopN(p.getInlineCallArity())
 	results := sig.Results()
 	for i, n := 0, results.Len(); i < n; i++ { // return results & clean env
 		key := closureParamInst{p, results.At(i)}
@@ -631,6 +630,10 @@ func (p *CodeBuilder) CallInlineClosureStart(sig *types.Signature, arity int, el
 	for i := n1; i >= 0; i-- {
 		p.emitVar(pkg, closure, getParam(sig, i), true)
 	}
+	// The arguments have been consumed by the parameter initialisers: the body's
+	// base is the stack as it is now, otherwise every `Len() - base` computed by
+	// the statements of the body (EndStmt, case clauses, ...) is off by arity.
+	p.current.base = p.stk.Len()
 	return p
 }
 
